@@ -260,3 +260,54 @@ def try_depth_source(rec, F):
             if not ok:
                 rec.finding(R, "F12.try-depth/%s" % fn.name, "Compiler::%s builds TryAttributes { depth } from a value that is %s: nested try blocks all get the same depth, so a break/continue that leaves two of them emits one PopHandler and a stale handler stays on the fiber" % (fn.name, how), loc=loc_of(s["sp"]), fn=fn.path)
     rec.floor(R, "TryAttributes constructions", n, 1)
+
+
+# ---------------------------------------------------------------------------
+# F12.duty — housekeeping steps that must not become conditional
+
+DUTIES = {
+    # id: (function regex, duty callee regex, operand must mention, text)
+    "intern-sweep": (r"^laythe_core::allocator::Allocator::sweep_intern_cache$", r"::retain$", "intern_cache",
+                     "every collection walks the whole intern table and drops the entries whose string is unmarked: the object sweep that follows frees those strings (the full sweep also tenured ones), and an entry left behind hands out a dangling LyStr the next time the same contents are interned"),
+    "scan-roots": (r"^laythe_vm::vm::hooks::<impl laythe_vm::vm::Vm>::scan_roots$", r"Fiber::scan_roots$", None,
+                   "Vm::scan_roots re-points the fiber's stack every time it is asked to: a stale reference to a moved list can arrive on the stack (from a module variable, a capture, a channel) long after the last growth, so no memo of 'nothing grew' may skip the scan"),
+}
+
+
+def unconditional_duties(rec, F, which):
+    """every path from the entry of the function to a return passes through the duty call (must-pass-through on the
+    function with its new helpers inlined); paths that diverge (panic) are exempt."""
+    R = rec.rule("F12.duty", "housekeeping that must run every time its function is entered is not made conditional (must-pass-through, frozen instances): " + "; ".join("%s: %s" % (k, DUTIES[k][3].split(":")[0]) for k in which))
+    n = 0
+    for k in which:
+        fre, cre, mention, text = DUTIES[k]
+        fn = F.find1(fre)
+        if fn is None:
+            rec.anchor_lost("F12.duty", fre)
+            continue
+        duty = set()
+        for bi, t in fn.calls():
+            if re.search(cre, t.get("decl") or t["f"]) or re.search(cre, t["f"]):
+                if mention is None or any(mention in str(sem.desc_operand(fn, a)) for a in t["args"][:1]):
+                    duty.add(bi)
+        n += 1
+        if not duty:
+            rec.inst(R, "%s: duty call present" % k, ok=False, loc=fn.loc)
+            rec.finding(R, "F12.duty/%s/absent" % k, "%s no longer performs its duty at all: %s" % (fn.name, text), loc=fn.loc, fn=fn.path)
+            continue
+        # reach a return without passing a duty block?
+        seen, work, leak = set(), [0], None
+        while work:
+            b = work.pop()
+            if b in seen or b in duty:
+                continue
+            seen.add(b)
+            if fn.blocks[b]["t"]["k"] == "return":
+                leak = b
+                break
+            work.extend(fn.succ(b))
+        ok = leak is None
+        rec.inst(R, "%s: on every path to return" % k, ok=ok, loc=fn.loc)
+        if not ok:
+            rec.finding(R, "F12.duty/%s/skipped" % k, "%s can return without %s: %s" % (fn.name, "running its duty (a path from entry reaches `return` around the call)", text), loc=fn.loc, fn=fn.path)
+    rec.floor(R, "duties examined", n, len(which))
